@@ -213,13 +213,21 @@ func (b *Builder) term(v ssa.Value) *Term {
 		if tup.Op == "tuple" && x.Index < len(tup.Args) {
 			return tup.Args[x.Index]
 		}
-		return &Term{Op: OExtract, N: x.Index, Args: []*Term{tup}}
+		if tup.Op == OLookup && tup.Str == "ok" && x.Index == 0 && len(tup.Args) == 2 {
+			// the value part of v, ok := m[k] is m[k]
+			return &Term{Op: OLookup, Args: tup.Args, Typ: x.Type()}
+		}
+		return &Term{Op: OExtract, N: x.Index, Args: []*Term{tup}, Typ: x.Type()}
 	case *ssa.Lookup:
 		s := ""
 		if x.CommaOk {
 			s = "ok"
 		}
-		return &Term{Op: OLookup, Str: s, Args: []*Term{b.Term(x.X), b.Term(x.Index)}}
+		var et types.Type
+		if mt, ok := x.X.Type().Underlying().(*types.Map); ok {
+			et = mt.Elem()
+		}
+		return &Term{Op: OLookup, Str: s, Args: []*Term{b.Term(x.X), b.Term(x.Index)}, Typ: et}
 	case *ssa.Slice:
 		if lst := b.varargs(x); lst != nil {
 			return lst
